@@ -1,3 +1,4 @@
+import Stackage.Lemmas.GenSem
 import Stackage.Lemmas.Marshal
 
 /-!
@@ -303,7 +304,11 @@ theorem Stk.push_one_plain (interp : Nat → Val → Option Nat) (s : Stk) (x : 
     s.push interp [x] = { s with xs := s.xs ++ [x] } := by
   unfold Stk.push
   rw [h.nopol]
-  simp only [Stk.genericAppend, Stk.canPushNester, h.nest, Stk.isFull, Gen.isFull, h.nocap]
+  have hfull : s.isFull = false := by
+    unfold Stk.isFull
+    rw [h.nocap, GenSem.isFull _ _ (by rw [isLen_iff]; omega) (fun c => absurd rfl c)]
+    simp
+  simp only [Stk.genericAppend, Stk.canPushNester, h.nest, hfull]
   simp
 
 /-- **C16 (an initialised receiver gains one element).** An initialised receiver without
